@@ -77,3 +77,10 @@ package keeper
 //@ ensures err == nil ==> types.psumS(signals, 0, len(signals)) <= types.totalPowerOf(old(Other), voter)
 //@ ensures err != nil ==> Other == old(Other)
 //@ loop 0: invariant sumPower == types.psumS(signals, 0, #i)
+
+// ---- C02: ranked signal list never indexes past the configured maximum ----------------------------------
+// (end-block code: an index panic here would halt the chain)
+//@ func (k Keeper) GetSignalTotalPowersByPower
+//@ requires limit <= MaxInt64
+//@ ensures len(result) <= limit
+//@ loop 0: invariant 0 <= i && i <= limit && len(signalTotalPowers) == limit && cap(signalTotalPowers) >= limit
